@@ -340,6 +340,7 @@ func TestC06(t *testing.T) {
 		kC06RT.Run(t, ev, perShard(pick(2500, 1200000)))
 		kC06Hostile.Run(t, ev, perShard(pick(4000, 2000000)))
 		kC06Str.Run(t, ev, perShard(pick(1000, 500000)))
+		kC06Alias.Run(t, ev, perShard(pick(150, 10000)))
 		runConcurrent(kC06RT, t, ev, perShard(pick(100, 10000)), 8)
 		ev.requireClasses("C06:accepted", "C06:rejected", "C06:rt-leading-zero-bytes", "C06:all-single-bit-flips",
 			"C06:checksum-recomputed/decoded-len=37", "C06:checksum-recomputed/decoded-len=38", "C06:checksum-recomputed/decoded-len=36",
